@@ -5,6 +5,7 @@ package canon
 import (
 	"fmt"
 	"math"
+	"sort"
 	"strconv"
 	"strings"
 
@@ -15,6 +16,31 @@ type Mode struct {
 	Explicit      bool // include InfixExpression.Explicit for "+"
 	DropSubParams bool // omit subroutine parameters (classifier of a known codec finding)
 	DropCallArgs  bool // omit `call` statement arguments (classifier of a known codec finding)
+	RemoveAsUnset bool // dump `remove x;` as `unset x;` (formatter option should_use_unset)
+	SortProps     bool // dump backend/director/table property lists sorted (formatter option sort_declaration_property)
+	DropGroups    bool // dump (grp X) as X: grouping is still visible in the nesting of the operators
+}
+
+// sorted writes the dumps produced by each f in sorted order when SortProps is set.
+func (d *dumper) list(n int, f func(i int)) {
+	if !d.m.SortProps {
+		for i := 0; i < n; i++ {
+			f(i)
+		}
+		return
+	}
+	saved := d.b
+	var items []string
+	for i := 0; i < n; i++ {
+		d.b = strings.Builder{}
+		f(i)
+		items = append(items, d.b.String())
+	}
+	d.b = saved
+	sort.Strings(items)
+	for _, it := range items {
+		d.b.WriteString(it)
+	}
 }
 
 type dumper struct {
@@ -145,7 +171,8 @@ func (d *dumper) stmt(s ast.Statement) {
 		d.ident(v.Name)
 		d.b.WriteString(" ")
 		d.ident(v.DirectorType)
-		for _, p := range v.Properties {
+		d.list(len(v.Properties), func(i int) {
+			p := v.Properties[i]
 			switch pv := p.(type) {
 			case *ast.DirectorProperty:
 				d.b.WriteString(" (prop ")
@@ -155,18 +182,19 @@ func (d *dumper) stmt(s ast.Statement) {
 				d.b.WriteString(")")
 			case *ast.DirectorBackendObject:
 				d.b.WriteString(" (dbackend")
-				for _, x := range pv.Values {
+				d.list(len(pv.Values), func(j int) {
+					x := pv.Values[j]
 					d.b.WriteString(" (prop ")
 					d.ident(x.Key)
 					d.b.WriteString(" ")
 					d.expr(x.Value)
 					d.b.WriteString(")")
-				}
+				})
 				d.b.WriteString(")")
 			default:
 				d.fail("unknown director property %T", p)
 			}
-		}
+		})
 		d.b.WriteString(")")
 	case *ast.TableDeclaration:
 		d.b.WriteString("(table ")
@@ -177,7 +205,8 @@ func (d *dumper) stmt(s ast.Statement) {
 		} else {
 			d.b.WriteString(" -")
 		}
-		for _, p := range v.Properties {
+		d.list(len(v.Properties), func(i int) {
+			p := v.Properties[i]
 			d.b.WriteString(" (tprop ")
 			if p.Key != nil {
 				fmt.Fprintf(&d.b, "(str %s)", strconv.Quote(p.Key.Value))
@@ -187,7 +216,7 @@ func (d *dumper) stmt(s ast.Statement) {
 			d.b.WriteString(" ")
 			d.expr(p.Value)
 			d.b.WriteString(")")
-		}
+		})
 		d.b.WriteString(")")
 	case *ast.SubroutineDeclaration:
 		d.b.WriteString("(sub ")
@@ -263,7 +292,11 @@ func (d *dumper) stmt(s ast.Statement) {
 		d.ident(v.Ident)
 		d.b.WriteString(")")
 	case *ast.RemoveStatement:
-		d.b.WriteString("(remove ")
+		if d.m.RemoveAsUnset {
+			d.b.WriteString("(unset ")
+		} else {
+			d.b.WriteString("(remove ")
+		}
 		d.ident(v.Ident)
 		d.b.WriteString(")")
 	case *ast.DeclareStatement:
@@ -385,7 +418,8 @@ func (d *dumper) stmt(s ast.Statement) {
 }
 
 func (d *dumper) backendProps(ps []*ast.BackendProperty) {
-	for _, p := range ps {
+	d.list(len(ps), func(i int) {
+		p := ps[i]
 		d.b.WriteString(" (prop ")
 		d.ident(p.Key)
 		d.b.WriteString(" ")
@@ -397,7 +431,7 @@ func (d *dumper) backendProps(ps []*ast.BackendProperty) {
 			d.expr(p.Value)
 		}
 		d.b.WriteString(")")
-	}
+	})
 }
 
 func (d *dumper) expr(e ast.Expression) {
@@ -439,6 +473,10 @@ func (d *dumper) expr(e ast.Expression) {
 		d.expr(v.Left)
 		d.b.WriteString(")")
 	case *ast.GroupedExpression:
+		if d.m.DropGroups {
+			d.expr(v.Right)
+			return
+		}
 		d.b.WriteString("(grp ")
 		d.expr(v.Right)
 		d.b.WriteString(")")
